@@ -509,11 +509,13 @@ def r6_duration(ctx):
         if zero:
             ctx.check(lat and busy and not any(x[0] == 'call' and 'sample' in x[1] for x in walk(t)), 'duration-nojitter', 'without jitter the delay is latency + transmission time', f.where_path(path), show(t)[:200])
         else:
-            smp = [x for x in walk(t) if x[0] == 'call' and x[1] == 'rand::Rng::sample']
+            # rng.sample(distr)  or, equivalently (it is how rand defines Rng::sample),  distr.sample(rng)
+            smp = [x for x in walk(t) if x[0] == 'call' and (x[1] == 'rand::Rng::sample' or x[1].endswith('rand::distr::Distribution>::sample') or x[1] == 'rand::distr::Distribution::sample')]
             ok = lat and busy and bool(smp)
             if ok:
                 u = [x for x in walk(smp[0]) if x[0] == 'call' and x[1] == 'rand::distr::Uniform::new']
-                ok = bool(u) and any(x[0] == 'field' and x[2] == 'jitter' for x in walk(u[0][2][1])) and '0' in show(u[0][2][0]) and _uncast(smp[0][2][0])[0] == 'arg'
+                rng_arg = smp[0][2][0] if smp[0][1] == 'rand::Rng::sample' else (smp[0][2][1] if len(smp[0][2]) > 1 else ('unknown',))
+                ok = bool(u) and any(x[0] == 'field' and x[2] == 'jitter' for x in walk(u[0][2][1])) and '0' in show(u[0][2][0]) and _uncast(rng_arg)[0] == 'arg'
             ctx.check(ok, 'duration-jitter', 'with jitter the delay is latency + transmission time + a draw from Uniform(0, jitter) of the passed RNG', f.where_path(path), show(t)[:300])
     ctx.floor('paths of calculate_duration', n, 2)
 
